@@ -142,7 +142,7 @@ func (h ProtectedHeader) SetCWTClaims(claims CWTClaims) (CWTClaims, error) {
 
 // Algorithm gets the algorithm value from the algorithm header.
 func (h ProtectedHeader) Algorithm() (Algorithm, error) {
-	value, ok := h[HeaderLabelAlgorithm]
+	value, ok := lookupLabel(h, HeaderLabelAlgorithm)
 	if !ok {
 		return AlgorithmReserved, ErrAlgorithmNotFound
 	}
@@ -174,7 +174,7 @@ func (h ProtectedHeader) Algorithm() (Algorithm, error) {
 // Notice: The COSE Hash Envelope API is EXPERIMENTAL and may be changed or
 // removed in a later release.
 func (h ProtectedHeader) PayloadHashAlgorithm() (Algorithm, error) {
-	value, ok := h[HeaderLabelPayloadHashAlgorithm]
+	value, ok := lookupLabel(h, HeaderLabelPayloadHashAlgorithm)
 	if !ok {
 		return AlgorithmReserved, ErrAlgorithmNotFound
 	}
@@ -201,7 +201,7 @@ func (h ProtectedHeader) PayloadHashAlgorithm() (Algorithm, error) {
 //
 // Reference: https://datatracker.ietf.org/doc/html/rfc8152#section-3.1
 func (h ProtectedHeader) Critical() ([]any, error) {
-	value, ok := h[HeaderLabelCritical]
+	value, ok := lookupLabel(h, HeaderLabelCritical)
 	if !ok {
 		return nil, nil
 	}
@@ -227,7 +227,7 @@ func ensureCritical(value any, headers map[any]any) error {
 		if !canInt(label) && !canTstr(label) {
 			return fmt.Errorf("require int / tstr type, got '%T': %v", label, label)
 		}
-		if _, ok := headers[label]; !ok {
+		if _, ok := lookupLabel(headers, label); !ok {
 			return fmt.Errorf("missing critical header: %v", label)
 		}
 	}
@@ -502,8 +502,27 @@ func (h *Headers) ensureIV() error {
 
 // hasLabel returns true if h contains label.
 func hasLabel(h map[any]any, label any) bool {
-	_, ok := h[label]
+	_, ok := lookupLabel(h, label)
 	return ok
+}
+
+// lookupLabel returns the value stored in h under label, whichever Go integer
+// type was used to spell the label (int(1), int64(1) and uint8(1) all denote
+// the CBOR label 1).
+func lookupLabel(h map[any]any, label any) (any, bool) {
+	if v, ok := h[label]; ok {
+		return v, true
+	}
+	want, ok := normalizeLabel(label)
+	if !ok {
+		return nil, false
+	}
+	for k, v := range h {
+		if got, ok := normalizeLabel(k); ok && got == want {
+			return v, true
+		}
+	}
+	return nil, false
 }
 
 // validateHeaderParameters validates all headers conform to the spec.
